@@ -182,7 +182,9 @@ impl Ctx {
         if self.stripe {
             let gi = self.group_index;
             self.group_index += 1;
-            if gi % self.nshards != self.shard {
+            // rotate by one every `nshards` groups so that a monitor with exactly `nshards` groups per
+            // codec does not hand all groups of one kind to the same shard
+            if (gi + gi / self.nshards) % self.nshards != self.shard {
                 self.skipped_groups += 1;
                 return;
             }
